@@ -25,6 +25,7 @@ import (
 	"strconv"
 	"strings"
 
+	wnet "github.com/whatap/golib/net"
 	"verif/harness/vh"
 )
 
@@ -194,7 +195,25 @@ func genSpec(r *vh.Rng, idx int, thorough bool) scenarioSpec {
 			sp.PostBig = genWbuf + 1 + r.Intn(512*1024)
 		}
 	}
+	if r2 := vh.NewRng(sp.Seed ^ 0x5e7115); sp.BigAll == 0 && sp.ApplyConfigs == 0 && sp.IdleMs == 0 && !sp.Stall && len(sp.Reconfig) == 0 && r2.Chance(3) {
+		// a server list: dead entries (refusing / not answering) before the live collector, anything behind it
+		// (its own random stream: the other scenarios of a seed stay what they were)
+		sp.Servers = genServers(r2)
+		sp.TimeoutMs = 400 + r2.Intn(300)
+		if len(sp.Script) > 2 {
+			sp.Script = sp.Script[:2]
+		}
+		for i := range sp.Script {
+			sp.Script[i].RefuseBefore = 0
+		}
+		if sp.Mode == "direct" && sp.PreMax > 100 {
+			sp.PreMax = 100
+		}
+	}
 	sp.Name = fmt.Sprintf("%s/%d senders/%d faults", sp.Mode, sp.Senders, len(sp.Script))
+	if len(sp.Servers) > 0 {
+		sp.Name += fmt.Sprintf("/server list %v, dial timeout %d ms", sp.Servers, sp.TimeoutMs)
+	}
 	if len(sp.Script) > 0 && sp.Script[0].Stall {
 		sp.Name += fmt.Sprintf("/collector stalls, write timeout %d ms", sp.TimeoutMs)
 	}
@@ -216,9 +235,59 @@ func genSpec(r *vh.Rng, idx int, thorough bool) scenarioSpec {
 	return sp
 }
 
+// genServers: 1–3 dead entries (a host that does not answer more often than one that refuses), the live
+// collector, then 0–2 entries of any kind (never dialled while the live one listens).
+func genServers(r *vh.Rng) []string {
+	var out []string
+	for i, n := 0, 1+r.Intn(3); i < n; i++ {
+		if r.Chance(60) && countStr(out, "gone") < 2 {
+			out = append(out, "gone")
+		} else {
+			out = append(out, "refused")
+		}
+	}
+	if countStr(out, "gone") == 0 && r.Chance(70) {
+		out[r.Intn(len(out))] = "gone"
+	}
+	out = append(out, "live")
+	for i, n := 0, r.Intn(3); i < n; i++ {
+		out = append(out, []string{"gone", "refused", "spare"}[r.Intn(3)])
+	}
+	return out
+}
+
+func countStr(xs []string, x string) int {
+	n := 0
+	for _, y := range xs {
+		if y == x {
+			n++
+		}
+	}
+	return n
+}
+
+// serverList: a client configured with a list of collectors of which only one is up
+func serverList(mode string, senders int, servers []string, script []directive, post int) scenarioSpec {
+	return scenarioSpec{Mode: mode, Senders: senders, Servers: servers, Script: script, PreMax: map[string]int{"direct": 100, "queue": 1500}[mode], Post: post, TimeoutMs: 400,
+		Seed: uint64(senders*71 + len(servers)*13 + len(script)*5 + len(mode)),
+		Name: fmt.Sprintf("fixed %s/%d senders/%d faults/server list %v, dial timeout 400 ms", mode, senders, len(script), servers)}
+}
+
 // fixed scenarios: the corners named in the property statement, always run
 func fixedSpecs(seed uint64, thorough bool, waitMs, wbuf int) []scenarioSpec {
 	out := fixedSpecs0(seed)
+	// server lists: the live collector behind entries that refuse / do not answer; fail-over after every fault
+	out = append(out,
+		serverList("direct", 1, []string{"gone", "live"}, nil, 6),
+		serverList("direct", 4, []string{"refused", "gone", "live", "spare"}, []directive{{Close: true, Frames: 2, Extra: 23}}, 5),
+		serverList("queue", 4, []string{"gone", "gone", "live"}, []directive{{Close: true, Frames: 1, Extra: 0}}, 6),
+		serverList("direct", 1, []string{"live", "gone", "spare"}, []directive{{Close: true, Frames: 3, Extra: 0, Rst: true}}, 5))
+	if thorough {
+		out = append(out,
+			serverList("queue", 1, []string{"refused", "refused", "gone", "live"}, nil, 8),
+			serverList("direct", 16, []string{"gone", "refused", "gone", "live", "spare"}, []directive{{Close: true, Frames: 1, Extra: -1}, {Close: true, Frames: 0, Extra: 5}}, 4),
+			serverList("queue", 4, []string{"refused", "live", "spare", "gone"}, []directive{{Close: true, Frames: 2, Extra: 1, Rst: true}}, 6))
+	}
 	if wbuf > 0 {
 		// size mixes around the write buffer within one unflushed run: "in order" on the received stream
 		mixes := sizeMixes(wbuf)
@@ -471,6 +540,9 @@ func stallSpec(mode string, senders, size, frames int) scenarioSpec {
 
 func canon(o *observation, an *analysis) string {
 	b, _ := json.Marshal(o.Spec.Script)
+	if len(o.Spec.Servers) > 0 {
+		b = append(b, []byte(fmt.Sprintf("|servers%v", o.Spec.Servers))...)
+	}
 	return fmt.Sprintf("%s|%d|cap%d|big%d/%d|rc%v%v|idle%d/%d|ac%d|%s|conns%d|delivered%d", o.Spec.Mode, o.Spec.Senders, o.Spec.QueueCap, o.Spec.Big, o.Spec.BigAll, o.Spec.Reconfig, o.Spec.Stall, o.Spec.IdleMs, o.Spec.PreIdleMs+len(o.Spec.Sizes)*7+o.Spec.PostBig, o.Spec.ApplyConfigs, b, len(o.Conns), len(an.Delivered))
 }
 
@@ -482,7 +554,7 @@ func main() {
 		return
 	}
 	rng := vh.NewRng(env.Seed)
-	rep.Rule = "a case is one scenario: mode (direct|queue) x senders (1|4|16) x entry points (Send, SendFlush(false), SendFlush(true), per-send options) x fault script (per accepted connection: close after j whole frames + m bytes, FIN or RST; refuse k connects) x pack sizes (up to > the 2 MiB write buffer) x queue reconfiguration / stalled consumer under a backlog x idle longer than the write timeout x idle longer than every internal wait of the client before traffic (then a burst, the consumer busy or not) x a collector that stops reading until a write deadline expires inside a frame and then reads on, on the same connection (frames below and above the write buffer) x frames of sizes around the client's write buffer (read from its source: tiny, just below, equal, just above) mixed in several orders within one unflushed run (SendFlush(false)…SendFlush(true), Put…Put + SendAndClear), run on the real client (in a child process) against a loopback collector stand-in; non-trivial = at least one frame was received and (a fault was carried out or several senders ran); distinct by (mode, senders, queue capacity, sizes, reconfiguration, script, connections accepted, frames received)"
+	rep.Rule = "a case is one scenario: mode (direct|queue) x senders (1|4|16) x entry points (Send, SendFlush(false), SendFlush(true), per-send options) x fault script (per accepted connection: close after j whole frames + m bytes, FIN or RST; refuse k connects) x pack sizes (up to > the 2 MiB write buffer) x queue reconfiguration / stalled consumer under a backlog x idle longer than the write timeout x idle longer than every internal wait of the client before traffic (then a burst, the consumer busy or not) x a collector that stops reading until a write deadline expires inside a frame and then reads on, on the same connection (frames below and above the write buffer) x frames of sizes around the client's write buffer (read from its source: tiny, just below, equal, just above) mixed in several orders within one unflushed run (SendFlush(false)…SendFlush(true), Put…Put + SendAndClear) x server lists (the live collector behind 1–3 entries that refuse the connection or do not answer at all — the dial runs into the client's Timeout —, other entries and a spare collector behind it; fail-over through the list after every fault), run on the real client (in a child process) against a loopback collector stand-in; non-trivial = at least one frame was received and (a fault was carried out or several senders ran); distinct by (mode, senders, queue capacity, sizes, reconfiguration, script, connections accepted, frames received)"
 
 	var specs []scenarioSpec
 	replayD42, replayD70, replayD71 := false, false, false
@@ -581,6 +653,12 @@ func main() {
 		for _, f := range r.Findings {
 			rep.Fail("property", f.Key, f.Summary, map[string]interface{}{"spec": r.Spec, "finding": f, "connections": r.Conns})
 		}
+		if r.ListCorr != "" {
+			rep.Fail("correspondence", "model-admits:connect-list", r.ListCorr, map[string]interface{}{"spec": r.Spec, "line": r.ListLine, "driver": r.ListOut, "verdict": r.List, "connect_calls": r.Groups})
+		} else if r.List != nil {
+			rep.Count("model-admits:connect-list")
+			rep.CountN("server-list:connect-calls-as-the-model", r.List.Agree)
+		}
 		switch {
 		case r.WitnessSkip != "":
 			rep.Count("model-replay-skipped")
@@ -666,6 +744,19 @@ func main() {
 			}
 			if d.Other != "" {
 				rep.Note("D71 replay: %s", d.Other)
+			}
+		}
+	}
+	// the no-op client of the same interface (net.EmptyTcpClient): every call returns nil
+	{
+		var e wnet.TcpClient = &wnet.EmptyTcpClient{}
+		tp, _ := genPack(vh.NewRng(env.Seed), 1, 0, 0, 0)
+		errs := []error{e.Connect(), e.Send(tp), e.SendFlush(tp, true, wnet.WithLicense("x")), e.Close()}
+		for _, err := range errs {
+			if err == nil {
+				rep.Count("empty-client:nil")
+			} else {
+				rep.Count("empty-client:error")
 			}
 		}
 	}
